@@ -21,6 +21,9 @@ import (
 	"math"
 	"math/rand"
 	"os"
+	"sort"
+	"strconv"
+	"sync/atomic"
 	"time"
 
 	"go.opentelemetry.io/otel"
@@ -41,6 +44,10 @@ type Cfg struct {
 	Unit   int64   `json:"unit"`
 	Bounds []int64 `json:"bounds"`
 	NCB    int     `json:"ncb"`
+	// Wide: exponential-histogram streams over a wide value range: value j is Vals[j] (sign: -1, 0, 1)
+	// times 2^Exps[j] (float64 instrument); sums are not exact there and not compared.
+	Wide bool  `json:"wide"`
+	Exps []int `json:"exps"`
 }
 
 // StreamSpec adds what the model does not see.
@@ -53,7 +60,7 @@ type StreamSpec struct {
 	Silent  bool   `json:"-"` // companion stream: executed, not written to the trace
 }
 
-func (s StreamSpec) float() bool { return s.Unit != 1 }
+func (s StreamSpec) float() bool { return s.Unit != 1 || s.Wide }
 func (s StreamSpec) async() bool {
 	return s.Kind == "ObsCounter" || s.Kind == "ObsUpDownCounter" || s.Kind == "ObsGauge"
 }
@@ -272,10 +279,22 @@ type scenario struct {
 	// only timestamps produced by the SDK are ever compared with each other (no harness clock)
 	seen [2][]time.Time
 	errs int
+	// gate of the overlapping collections (see collectOverlapped)
+	armed            atomic.Bool
+	entered, release chan struct{}
+	deferred         bool   // project a collection point only just before the next one (fresh ResourceMetrics only)
+	pending          func() // the deferred projection
+	nDeferred        int
+	overlapped       int // overlapped pairs executed
+	overlapHeld      int // ... in which the second Collect had to wait for the first
+	overlapInside    int // ... in which the second Collect completed while the first was held
 }
 
 func (s *stream) value(j int) (int64, float64) {
 	u := s.spec.Vals[j-1]
+	if s.spec.Wide {
+		return u, float64(u) * math.Ldexp(1, s.spec.Exps[j-1])
+	}
 	return u, float64(u) / float64(s.spec.Unit)
 }
 
@@ -328,6 +347,7 @@ func (s *stream) observe(cb, ncb int, oi func(int64, metric.ObserveOption), of f
 
 func newScenario(rng *rand.Rand, specs []StreamSpec, ncb int, reuse bool, deltaFirst bool) *scenario {
 	sc := &scenario{rng: rng, reuse: reuse, byName: map[string]*stream{}, regs: map[int]multiReg{}, ncb: ncb}
+	sc.deferred = rng != nil && rng.Intn(2) == 0
 	sc.readers[0] = sdkmetric.NewManualReader(sdkmetric.WithTemporalitySelector(
 		func(sdkmetric.InstrumentKind) metricdata.Temporality { return metricdata.DeltaTemporality }))
 	sc.readers[1] = sdkmetric.NewManualReader(sdkmetric.WithTemporalitySelector(
@@ -348,6 +368,9 @@ func newScenario(rng *rand.Rand, specs []StreamSpec, ncb int, reuse bool, deltaF
 	sc.meters = []metric.Meter{sc.mp.Meter("c08/m0"), sc.mp.Meter("c08/m1", metric.WithInstrumentationVersion("1"))}
 	sc.rms = [2]*metricdata.ResourceMetrics{{}, {}}
 	for _, sp := range specs {
+		if sp.Exps == nil {
+			sp.Exps = []int{}
+		}
 		s := &stream{spec: sp, table: make([]int, sp.NA)}
 		for r := range s.trk {
 			s.trk[r] = &track{prevTime: map[int]time.Time{}, prevStart: map[int]time.Time{}, firstStart: map[int]time.Time{}}
@@ -359,6 +382,17 @@ func newScenario(rng *rand.Rand, specs []StreamSpec, ncb int, reuse bool, deltaF
 	for r := 0; r < 2; r++ {
 		sc.seen[r] = []time.Time{{}}
 	}
+	// the gate: an observable instrument created last, so its callback runs after the callbacks the
+	// other instruments were created with; it observes nothing and only blocks when armed
+	_, err := sc.meters[0].Int64ObservableGauge("c08.gate", metric.WithInt64Callback(
+		func(context.Context, metric.Int64Observer) error {
+			if sc.armed.CompareAndSwap(true, false) {
+				close(sc.entered)
+				<-sc.release
+			}
+			return nil
+		}))
+	vh.Must(err)
 	return sc
 }
 
@@ -536,15 +570,15 @@ func tri(known bool, eq bool) string {
 	return "ne"
 }
 
-// project one reader's report for one stream at its k-th collection.
-func (sc *scenario) project(r int, k int, s *stream, found []metricdata.Metrics) RD {
+// project one reader's report for one stream at the reader's k-th collection, given the
+// structural-time state trk of (reader, stream); returns the projection and the next state
+// (trk itself is not modified: overlapping collections are projected under both serial orders).
+func (sc *scenario) project(r int, k int, s *stream, trk *track, found []metricdata.Metrics) (RD, *track) {
 	rd := RD{Temp: "none", Dt: "none", Pts: make([]Pt, s.spec.NA)}
 	for i := range rd.Pts {
 		rd.Pts[i] = noPt()
 	}
-	trk := s.trk[r]
-	nowTime := map[int]time.Time{}
-	nowStart := map[int]time.Time{}
+	next := &track{prevTime: map[int]time.Time{}, prevStart: map[int]time.Time{}, firstStart: trk.firstStart}
 	if len(found) > 1 {
 		rd.Junk += len(found) - 1
 	}
@@ -560,6 +594,9 @@ func (sc *scenario) project(r int, k int, s *stream, found []metricdata.Metrics)
 				continue
 			}
 			p := rp.pt
+			if s.spec.Wide {
+				p.S, p.X = 0, true // sums of values up to 2^300 are not exact: not part of the comparison
+			}
 			p.Sle = !rp.start.After(rp.time)
 			p.Sgap = k < 2 || !rp.start.Before(sc.seen[r][k-2])
 			// "starts where the previous collection ended": the Time this reader reported for the
@@ -580,79 +617,238 @@ func (sc *scenario) project(r int, k int, s *stream, found []metricdata.Metrics)
 			}
 			ps, ok := trk.prevStart[a]
 			p.Scont = tri(ok, ok && ps.Equal(rp.start))
-			fs, ok := trk.firstStart[a]
+			fs, ok := next.firstStart[a]
 			p.Sfirst = tri(ok, ok && fs.Equal(rp.start))
 			if !ok {
-				trk.firstStart[a] = rp.start
+				cp := make(map[int]time.Time, len(next.firstStart)+1)
+				for q, v := range next.firstStart {
+					cp[q] = v
+				}
+				cp[a] = rp.start
+				next.firstStart = cp
 			}
-			nowTime[a] = rp.time
-			nowStart[a] = rp.start
+			next.prevTime[a] = rp.time
+			next.prevStart[a] = rp.start
 			rd.Pts[a-1] = p
 		}
 	}
-	trk.prevTime = nowTime
-	trk.prevStart = nowStart
-	return rd
+	return rd, next
+}
+
+// gathered is what one Collect call of one reader returned: the metrics by name and the latest
+// Time of any of its data points (zero if there is none).
+type gathered struct {
+	byName map[string][]metricdata.Metrics
+	latest time.Time
+}
+
+func gather(rm *metricdata.ResourceMetrics) gathered {
+	g := gathered{byName: map[string][]metricdata.Metrics{}}
+	for _, sm := range rm.ScopeMetrics {
+		for _, m := range sm.Metrics {
+			g.byName[m.Name] = append(g.byName[m.Name], m)
+			_, _, raw := projectData(m.Data, 1)
+			for _, rp := range raw {
+				if rp.time.After(g.latest) {
+					g.latest = rp.time
+				}
+			}
+		}
+	}
+	return g
+}
+
+// advance registers one more collection of reader r; returns its index k.
+func (sc *scenario) advance(r int, g gathered) int {
+	latest := sc.seen[r][len(sc.seen[r])-1]
+	if g.latest.After(latest) {
+		latest = g.latest
+	}
+	sc.seen[r] = append(sc.seen[r], latest)
+	return len(sc.seen[r]) - 1
+}
+
+func (sc *scenario) nextRM(r int) *metricdata.ResourceMetrics {
+	if !sc.reuse {
+		sc.rms[r] = &metricdata.ResourceMetrics{}
+	}
+	return sc.rms[r]
+}
+
+func (sc *scenario) unknown(g gathered) {
+	for name := range g.byName {
+		if _, ok := sc.byName[name]; !ok {
+			sc.errs++
+		}
+	}
+}
+
+func (s *stream) takeOps() ([]Op, []int) {
+	ops := s.pending
+	if ops == nil {
+		ops = []Op{}
+	}
+	s.pending = nil
+	obs := make([]int, s.spec.NA)
+	if s.spec.async() {
+		copy(obs, s.table)
+	}
+	return ops, obs
+}
+
+// settle projects a collection point whose projection was deferred (see collect).
+func (sc *scenario) settle() {
+	if sc.pending != nil {
+		f := sc.pending
+		sc.pending = nil
+		f()
+	}
 }
 
 // collect is one collection point: both readers, back to back, nothing in between.
+//
+// When every collection gets a fresh ResourceMetrics (no reuse) a scenario may DEFER the projection
+// of a collection point until just before the next one, i.e. until after the measurements of the
+// following cycle: what Collect handed out must not change afterwards, so the projection -- and with
+// it every clause of the specification -- is the same; an aggregate that hands out its own bucket
+// memory instead of a copy shows there and nowhere else.
 func (sc *scenario) collect(deltaFirst bool) {
+	sc.settle()
 	order := []int{0, 1}
 	if !deltaFirst {
 		order = []int{1, 0}
 	}
-	var got [2]map[string][]metricdata.Metrics
 	for _, r := range order {
-		rm := sc.rms[r]
-		if !sc.reuse {
-			rm = &metricdata.ResourceMetrics{}
-			sc.rms[r] = rm
-		}
-		vh.Must(sc.readers[r].Collect(context.Background(), rm))
+		vh.Must(sc.readers[r].Collect(context.Background(), sc.nextRM(r)))
 	}
 	// project only after both collections (nothing happens between the two Collect calls)
+	var got [2]gathered
 	for r := 0; r < 2; r++ {
-		got[r] = map[string][]metricdata.Metrics{}
-		latest := sc.seen[r][len(sc.seen[r])-1]
-		for _, sm := range sc.rms[r].ScopeMetrics {
-			for _, m := range sm.Metrics {
-				got[r][m.Name] = append(got[r][m.Name], m)
-				_, _, raw := projectData(m.Data, 1)
-				for _, rp := range raw {
-					if rp.time.After(latest) {
-						latest = rp.time
-					}
-				}
+		got[r] = gather(sc.rms[r])
+		sc.unknown(got[r])
+	}
+	type taken struct {
+		ops []Op
+		obs []int
+	}
+	tk := make([]taken, len(sc.streams))
+	for i, s := range sc.streams {
+		tk[i].ops, tk[i].obs = s.takeOps()
+	}
+	finish := func() {
+		for i, s := range sc.streams {
+			var rd [2]RD
+			for r := 0; r < 2; r++ {
+				rd[r], s.trk[r] = sc.project(r, len(sc.seen[r]), s, s.trk[r], got[r].byName[s.spec.Name])
 			}
+			s.lines = append(s.lines, map[string]any{"ev": "Cycle", "ops": tk[i].ops, "obs": tk[i].obs, "d": rd[0], "c": rd[1]})
+			s.ncycles++
 		}
-		sc.seen[r] = append(sc.seen[r], latest)
-	}
-	for _, s := range sc.streams {
-		k := len(sc.seen[0]) - 1
-		d := sc.project(0, k, s, got[0][s.spec.Name])
-		c := sc.project(1, k, s, got[1][s.spec.Name])
-		ops := s.pending
-		if ops == nil {
-			ops = []Op{}
-		}
-		obs := make([]int, s.spec.NA)
-		if s.spec.async() {
-			copy(obs, s.table)
-		}
-		s.lines = append(s.lines, map[string]any{"ev": "Cycle", "ops": ops, "obs": obs, "d": d, "c": c})
-		s.pending = nil
-		s.ncycles++
-	}
-	for r := 0; r < 2; r++ {
-		for name := range got[r] {
-			if _, ok := sc.byName[name]; !ok {
-				sc.errs++
-			}
+		for r := 0; r < 2; r++ {
+			sc.advance(r, got[r])
 		}
 	}
+	if sc.deferred && !sc.reuse {
+		sc.pending = finish
+		sc.nDeferred++
+		return
+	}
+	finish()
 }
 
-func (sc *scenario) shutdown() { _ = sc.mp.Shutdown(context.Background()) }
+// collectOverlapped is TWO collection points with nothing in between, at which reader x is
+// collected by two goroutines whose Collect calls overlap: the first is held inside the gate
+// callback (the last instrument callback of the pipeline, i.e. after the instruments' own
+// callbacks made their observations) while the second is started; the other reader y is collected
+// twice, one after the other.  The SDK documents Collect as safe for concurrent use and serialises
+// the collections of one reader, so the two results of x must be explained by one of the two serial
+// orders: both are projected (primary = ordered by the Times the SDK reported; alternative = the
+// reverse) and Trace_Temporality accepts either.  The harness decides nothing; in particular how
+// long it waits for the second call before it opens the gate influences no verdict.
+func (sc *scenario) collectOverlapped(x int) {
+	sc.settle()
+	ctx := context.Background()
+	y := 1 - x
+	rmA, rmB := sc.nextRM(x), &metricdata.ResourceMetrics{}
+	sc.entered, sc.release = make(chan struct{}), make(chan struct{})
+	sc.armed.Store(true)
+	doneA, doneB := make(chan error, 1), make(chan error, 1)
+	go func() { doneA <- sc.readers[x].Collect(ctx, rmA) }()
+	aDone := false
+	select {
+	case <-sc.entered:
+	case err := <-doneA: // (the gate callback did not run: nothing to hold; the second call simply follows)
+		vh.Must(err)
+		aDone = true
+		sc.armed.Store(false)
+	}
+	go func() { doneB <- sc.readers[x].Collect(ctx, rmB) }()
+	bDone := false
+	if !aDone {
+		select {
+		case err := <-doneB:
+			vh.Must(err)
+			bDone = true
+			sc.overlapInside++ // the second collection ran to completion inside the first
+		case <-time.After(overlapWait):
+			sc.overlapHeld++ // the second collection waits for the first, as the pipeline lock demands
+		}
+		close(sc.release)
+		vh.Must(<-doneA)
+	}
+	if !bDone {
+		vh.Must(<-doneB)
+	}
+	gA, gB := gather(rmA), gather(rmB)
+	sc.unknown(gA)
+	sc.unknown(gB)
+	gP, gQ := gA, gB // primary order: by the SDK's own timestamps (ties: the gate holder first)
+	if gA.latest.After(gB.latest) && !gB.latest.IsZero() {
+		gP, gQ = gB, gA
+	}
+	kx := len(sc.seen[x])
+	// reader y: two ordinary collections, projected one by one (its ResourceMetrics may be reused)
+	var gy [2]gathered
+	ys := [2][]RD{make([]RD, len(sc.streams)), make([]RD, len(sc.streams))}
+	for i := 0; i < 2; i++ {
+		vh.Must(sc.readers[y].Collect(ctx, sc.nextRM(y)))
+		gy[i] = gather(sc.rms[y])
+		sc.unknown(gy[i])
+		for si, s := range sc.streams {
+			ys[i][si], s.trk[y] = sc.project(y, len(sc.seen[y]), s, s.trk[y], gy[i].byName[s.spec.Name])
+		}
+		sc.advance(y, gy[i])
+	}
+	names := [2]string{"d", "c"}
+	for si, s := range sc.streams {
+		name := s.spec.Name
+		p1, t1 := sc.project(x, kx, s, s.trk[x], gP.byName[name])
+		p2, t2 := sc.project(x, kx+1, s, t1, gQ.byName[name])
+		q1, u1 := sc.project(x, kx, s, s.trk[x], gQ.byName[name])
+		q2, _ := sc.project(x, kx+1, s, u1, gP.byName[name])
+		s.trk[x] = t2
+		ops, obs := s.takeOps()
+		pair := func(xr RD, i int) map[string]any { return map[string]any{names[x]: xr, names[y]: ys[i][si]} }
+		s.lines = append(s.lines, map[string]any{"ev": "Over", "x": names[x], "ops": ops, "obs": obs,
+			"p1": pair(p1, 0), "p2": pair(p2, 1), "q1": pair(q1, 0), "q2": pair(q2, 1)})
+		s.ncycles += 2
+	}
+	sc.advance(x, gP)
+	sc.advance(x, gQ)
+	sc.overlapped++
+}
+
+var overlapWait = func() time.Duration {
+	if ms, err := strconv.Atoi(os.Getenv("C08_OVERLAP_WAIT_MS")); err == nil && ms > 0 {
+		return time.Duration(ms) * time.Millisecond
+	}
+	return 15 * time.Millisecond
+}()
+
+func (sc *scenario) shutdown() {
+	sc.settle()
+	_ = sc.mp.Shutdown(context.Background())
+}
 
 // flush writes every stream's New + Cycle lines; returns the number of stream traces written.
 func (sc *scenario) flush(tw *vh.TraceWriter, scID *int, meta map[string]any) int {
@@ -677,24 +873,40 @@ func (sc *scenario) flush(tw *vh.TraceWriter, scID *int, meta map[string]any) in
 }
 
 func countRegimes(res *vh.Result, sc *scenario) {
+	res.Count("overlapped_pairs", int64(sc.overlapped))
+	res.Count("deferred_projections", int64(sc.nDeferred))
+	res.Count("overlap_second_waited", int64(sc.overlapHeld))
+	res.Count("overlap_second_ran_inside_first", int64(sc.overlapInside))
 	for _, s := range sc.streams {
 		if s.spec.Silent {
 			continue
 		}
-		for i, l := range s.lines {
-			d := l["d"].(RD)
-			c := l["c"].(RD)
+		// the collection points of the stream, an overlapped pair in its primary order
+		type point struct{ d, c RD }
+		var pts []point
+		for _, l := range s.lines {
+			if l["ev"] == "Over" {
+				for _, k := range []string{"p1", "p2"} {
+					m := l[k].(map[string]any)
+					pts = append(pts, point{m["d"].(RD), m["c"].(RD)})
+				}
+				continue
+			}
+			pts = append(pts, point{l["d"].(RD), l["c"].(RD)})
+		}
+		for i, pt := range pts {
+			d, c := pt.d, pt.c
 			if !d.Has && i > 0 {
 				res.Count("delta_empty_cycles", 1)
-				if i+1 < len(s.lines) && s.lines[i+1]["d"].(RD).Has {
+				if i+1 < len(pts) && pts[i+1].d.Has {
 					res.Count("delta_point_after_empty_cycle", 1)
 				}
 			}
 			for a := range d.Pts {
-				if d.Pts[a].P && i > 0 && !s.lines[i-1]["d"].(RD).Pts[a].P {
+				if d.Pts[a].P && i > 0 && !pts[i-1].d.Pts[a].P {
 					seenBefore := false
 					for q := 0; q < i-1; q++ {
-						if s.lines[q]["d"].(RD).Pts[a].P {
+						if pts[q].d.Pts[a].P {
 							seenBefore = true
 						}
 					}
@@ -722,6 +934,12 @@ func countRegimes(res *vh.Result, sc *scenario) {
 					if c.Pts[a].Sc < 0 {
 						res.Count("expo_negative_scale_points", 1)
 					}
+					if s.spec.Wide && i > 0 && pts[i-1].c.Pts[a].P && c.Pts[a].Sc < pts[i-1].c.Pts[a].Sc {
+						res.Count("wide_cumulative_rescaled_between_cycles", 1)
+					}
+				}
+				if s.spec.Wide && d.Pts[a].P && c.Pts[a].P && d.Pts[a].Sc != c.Pts[a].Sc {
+					res.Count("wide_delta_and_cumulative_at_different_scales", 1)
 				}
 			}
 		}
@@ -746,6 +964,9 @@ const heartbeatName = "heartbeat"
 func heartbeatFor(sp StreamSpec) StreamSpec {
 	hb := StreamSpec{Cfg: Cfg{Agg: sp.Agg, NA: 1, Vals: []int64{7}, Unit: sp.Unit, Bounds: []int64{}, NCB: 1},
 		Name: heartbeatName, Meter: sp.Meter, Silent: true}
+	if sp.Wide {
+		hb.Unit = 4
+	}
 	switch sp.Agg {
 	case "sum":
 		hb.Kind, hb.NoView = "Counter", true
@@ -759,8 +980,31 @@ func heartbeatFor(sp StreamSpec) StreamSpec {
 	return hb
 }
 
-func runOps(sc *scenario, s *stream, ops []Op, deltaFirst bool) {
-	for _, op := range ops {
+// overlapCandidates: positions i such that ops[i] and ops[i+1] are collection points with the same
+// callback table and nothing in between -- in the specification two consecutive DoCollectPoint
+// steps; on the real provider they may be executed as two OVERLAPPING collections of one reader.
+func overlapCandidates(ops []Op) []int {
+	var out []int
+	for i := 0; i+1 < len(ops); i++ {
+		if ops[i].Op != "Collect" || ops[i+1].Op != "Collect" || len(ops[i].Obs) != len(ops[i+1].Obs) {
+			continue
+		}
+		same := true
+		for q := range ops[i].Obs {
+			same = same && ops[i].Obs[q] == ops[i+1].Obs[q]
+		}
+		if same {
+			out = append(out, i)
+		}
+	}
+	return out
+}
+
+// runOps executes the operations on the stream under test; the two collection points at
+// overlapAt, overlapAt+1 (if >= 0) are executed as overlapping collections of reader x.
+func runOps(sc *scenario, s *stream, ops []Op, deltaFirst bool, overlapAt, x int) {
+	for i := 0; i < len(ops); i++ {
+		op := ops[i]
 		if hb := sc.byName[heartbeatName]; hb != nil && op.Op == "Collect" {
 			sc.record(hb, 1, 1)
 		}
@@ -773,12 +1017,21 @@ func runOps(sc *scenario, s *stream, ops []Op, deltaFirst bool) {
 			sc.unregister(op.C)
 		case "Collect":
 			copy(s.table, op.Obs)
-			sc.collect(deltaFirst)
+			if i == overlapAt {
+				sc.collectOverlapped(x)
+				i++
+			} else {
+				sc.collect(deltaFirst)
+			}
 		default:
 			panic("unknown op " + op.Op)
 		}
 	}
 }
+
+// of the replayed edges that contain a candidate pair, about one in overlapEvery is overlapped
+// (until the budget is used up), so that the pairs spread over the whole edge list
+const overlapEvery = 5
 
 func replay(args []string) {
 	fs := flag.NewFlagSet("replay", flag.ExitOnError)
@@ -787,6 +1040,7 @@ func replay(args []string) {
 	out := fs.String("out", "trace.ndjson", "")
 	resF := fs.String("res", "result.json", "")
 	sample := fs.Int("sample", 0, "replay only every k-th edge offset by seed (0 = all)")
+	overlap := fs.Int("overlap", 0, "execute up to n pairs of consecutive collection points as overlapping collections")
 	fs.Parse(args)
 	var spec StreamSpec
 	vh.Must(json.Unmarshal([]byte(*cfgJ), &spec))
@@ -817,7 +1071,12 @@ func replay(args []string) {
 		sc := newScenario(rng, specs, spec.NCB, variant%2 == 0, (variant/2)%2 == 0)
 		st := sc.byName[spec.Name]
 		ops := append(append([]Op{}, e.Path...), e.Act)
-		runOps(sc, st, ops, (variant/4)%2 == 0)
+		overlapAt := -1
+		if cand := overlapCandidates(ops); *overlap > 0 && len(cand) > 0 && (variant/64)%overlapEvery == 0 {
+			overlapAt = cand[rng.Intn(len(cand))]
+			*overlap--
+		}
+		runOps(sc, st, ops, (variant/4)%2 == 0, overlapAt, int(variant/16)%2)
 		sc.shutdown()
 		sc.flush(tw, &scID, map[string]any{"edge": i, "reuse": sc.reuse})
 		res.Executed++
@@ -830,7 +1089,7 @@ func replay(args []string) {
 	}
 	vh.Must(tw.Close())
 	res.Count("trace_lines", tw.N)
-	res.Count("otel_errors", int64(otelErrors))
+	res.Count("otel_errors", otelErrors.Load())
 	vh.Must(res.Write(*resF))
 }
 
@@ -884,7 +1143,83 @@ func randomSpecs(rng *rand.Rand, na, ncb int) []StreamSpec {
 		}
 		specs = append(specs, sp)
 	}
+	// exponential histograms over a wide value range (powers of two over +-300 octaves, both sides of
+	// 1, both signs, zero) with tiny and default MaxSize: the two readers rescale at different moments
+	type wk struct {
+		kind   string
+		signed bool
+		sizes  []int32
+	}
+	for i, w := range []wk{
+		{"Histogram", false, []int32{2, 3, 4, 8}},
+		{"Histogram", false, []int32{160}},
+		{"Gauge", true, []int32{3, 4, 8, 160}},
+		{"ObsUpDownCounter", true, []int32{2, 4, 160}},
+	} {
+		sp := StreamSpec{Name: fmt.Sprintf("w%02d.%s.expo", i, w.kind), Meter: rng.Intn(2), MaxSize: w.sizes[rng.Intn(len(w.sizes))]}
+		sp.Kind, sp.Agg, sp.NA, sp.NCB, sp.Unit, sp.Bounds, sp.Wide = w.kind, "expo", na, ncb, 4, []int64{}, true
+		sp.Vals, sp.Exps = wideAlphabet(rng, w.signed)
+		specs = append(specs, sp)
+	}
 	return specs
+}
+
+// wideAlphabet: signs and exponents of a value alphabet made for fill -> rescale -> jump patterns: a
+// cluster of adjacent octaves above a random base, increasingly distant octaves after it, the far
+// ends of the range and the neighbourhood of 1; ascending by exponent within a sign; zero last.
+func wideAlphabet(rng *rand.Rand, signed bool) (signs []int64, exps []int) {
+	base := rng.Intn(541) - 290
+	seen := map[int]bool{}
+	var pos []int
+	add := func(e int) {
+		if !seen[e] && e >= -300 && e <= 300 {
+			seen[e] = true
+			pos = append(pos, e)
+		}
+	}
+	for _, off := range []int{1, 2, 3, 4, 5, 6, 8, 9, 11, 14, 19, 27, 40} {
+		add(base + off)
+	}
+	for _, e := range []int{-300, -1, 0, 1, 300} {
+		if rng.Intn(2) == 0 {
+			add(e)
+		}
+	}
+	sort.Ints(pos)
+	for _, e := range pos {
+		signs, exps = append(signs, 1), append(exps, e)
+	}
+	if signed {
+		for i, e := range pos {
+			if i%2 == 0 || i < 6 {
+				signs, exps = append(signs, -1), append(exps, e)
+			}
+		}
+	}
+	return append(signs, 0), append(exps, 0)
+}
+
+// burst: consecutive alphabet entries of one sign, ascending, from a random position
+func wideBurst(rng *rand.Rand, sp StreamSpec) []int {
+	sign := int64(1)
+	if rng.Intn(3) == 0 {
+		sign = -1
+	}
+	var js []int
+	for j, sg := range sp.Vals {
+		if sg == sign {
+			js = append(js, j+1)
+		}
+	}
+	if len(js) == 0 {
+		return nil
+	}
+	from := rng.Intn(len(js))
+	n := 3 + rng.Intn(8)
+	if from+n > len(js) {
+		n = len(js) - from
+	}
+	return js[from : from+n]
 }
 
 func random(args []string) {
@@ -920,7 +1255,11 @@ func random(args []string) {
 			x := rng.Intn(100)
 			switch {
 			case x < pCollect || i == steps-1:
-				sc.collect(rng.Intn(2) == 0)
+				if rng.Intn(7) == 0 {
+					sc.collectOverlapped(rng.Intn(2))
+				} else {
+					sc.collect(rng.Intn(2) == 0)
+				}
 			case x < pCollect+12:
 				c := 1 + rng.Intn(3)
 				if c < ncb {
@@ -951,6 +1290,18 @@ func random(args []string) {
 				if rng.Intn(4) > 0 {
 					a = 1 + rng.Intn(hot)
 				}
+				if s.spec.Wide && rng.Intn(3) == 0 {
+					// fill -> rescale -> jump: an ascending run of octaves into one attribute set,
+					// now and then cut by a collection point (the delta stream starts afresh there)
+					for _, j := range wideBurst(rng, s.spec) {
+						sc.record(s, a, j)
+						if rng.Intn(5) == 0 {
+							sc.collect(rng.Intn(2) == 0)
+						}
+					}
+					res.Count("wide_bursts", 1)
+					break
+				}
 				sc.record(s, a, 1+rng.Intn(len(s.spec.Vals)))
 			}
 		}
@@ -966,7 +1317,7 @@ func random(args []string) {
 	}
 	vh.Must(tw.Close())
 	res.Count("trace_lines", tw.N)
-	res.Count("otel_errors", int64(otelErrors))
+	res.Count("otel_errors", otelErrors.Load())
 	vh.Must(res.Write(*resF))
 }
 
@@ -1052,11 +1403,11 @@ func probe(args []string) {
 
 // ---------------------------------------------------------------- misc
 
-var otelErrors int
+var otelErrors atomic.Int64
 
 type errCounter struct{}
 
-func (errCounter) Handle(error) { otelErrors++ }
+func (errCounter) Handle(error) { otelErrors.Add(1) }
 
 func bytesReader(b []byte) *bytes.Reader { return bytes.NewReader(b) }
 
